@@ -238,3 +238,18 @@ def intOfStr (s : String) : M Int :=
     | some (n, k) => if k > intMaxStrDigits then throw .valueError else pure (if t.1 then -(n : Int) else (n : Int))
 
 end Py
+
+/-! ### Integer arithmetic below a unary minus (appended for the `_symbolic.py` tie)
+
+  An `int` of the translated kernels is a `Nat`; an expression that contains a unary minus (`(-x) % r`, `-(-x // r)`) is computed in
+  `Int` with Python's floor semantics, and goes back to `Nat` through `Py.toNat` at the place where the value is stored, returned or
+  passed on.  A negative value there *fails* (`Err.negative`, as `Py.sub` does): a generated function that returns `.ok v` computed `v`
+  exactly as Python does. -/
+namespace Py
+/-- `a % b` on ints: floor modulo (the result has the sign of the divisor) -/
+def imod (a b : Int) : M Int := if b = 0 then throw .zeroDivision else pure (Int.fmod a b)
+/-- `a // b` on ints: floor division -/
+def ifloordiv (a b : Int) : M Int := if b = 0 then throw .zeroDivision else pure (Int.fdiv a b)
+/-- an `Int`-valued intermediate result used as a natural from here on; a negative one is outside the fragment -/
+def toNat (a : Int) : M Nat := if 0 ≤ a then pure a.toNat else throw .negative
+end Py
